@@ -158,7 +158,7 @@ def outcome_event(case, run, pristine_flat, fm, world_keys):
             ev["nDiffStruct"] += 1
             diffs.append((k, "<absent>", fg[k]))
     txt = json.dumps(dump)
-    ev["nCrash"] = txt.count('"panic"')
+    ev["nCrash"] = txt.count('"panic"') + sum(e.get("panic", 0) for e in run["events"] if e["ev"] == "Concurrent")
     if ev["nCrash"]:
         i = txt.find('"site": "')
         ev["site"] = txt[i + 9:i + 80].split('"')[0] if i >= 0 else ""
@@ -170,11 +170,34 @@ def outcome_event(case, run, pristine_flat, fm, world_keys):
     return ev, diffs
 
 
+def big_block_positions(fm, per_block=150):
+    """positions inside the blocks of >= 4 KiB (the reader maps those instead of copying them)"""
+    pos = []
+    for pk in jbkdec.all_packs(fm.dec):
+        for b in pk["blocks"]:
+            if b["kind"] != "NestedPack" and b["size"] >= 4000:
+                step = max(1, (b["end"] - b["begin"]) // per_block)
+                pos += list(range(b["begin"], b["end"], step)) + [b["end"] - 1, b["end"] - 5]
+    return sorted(set(p for p in pos if 0 <= p < fm.size))
+
+
 def gen_cases(fm, rng, tier, prop, stride=1):
     """damage cases for one file"""
     cases = []
     n = fm.size
     masks = [0x01, 0x80, 0xFF]
+    if stride == "big":
+        def addb(dmg, positions):
+            parts, covered, cpacks = fm.classify(positions)
+            cases.append({"damage": dmg, "parts": parts, "covered": covered, "cpacks": cpacks, "model": False, "trunc": 0})
+        for pos in big_block_positions(fm, 30 if tier == "quick" else 600):
+            addb({"kind": "xor", "pos": pos, "mask": masks[pos % 3]}, [pos])
+        for pos in range(0, n, max(1, n // (40 if tier == "quick" else 1500))):
+            addb({"kind": "xor", "pos": pos, "mask": masks[pos % 3]}, [pos])
+        if prop == "C06":
+            for t_ in range(0, n, max(1, n // (40 if tier == "quick" else 400))):
+                addb({"kind": "trunc", "len": t_}, [])
+        return cases
 
     def add(dmg, positions, model=True, trunc=0):
         parts, covered, cpacks = fm.classify(positions)
@@ -203,8 +226,12 @@ def gen_cases(fm, rng, tier, prop, stride=1):
     return cases
 
 
-def make_world(binary, base, rng, idx, comp, concat, n_extras, tier):
-    scn = L.make_container(rng, 500 + idx, n_entries=4, n_extras=n_extras, comp=comp, concat=concat)
+def make_world(binary, base, rng, idx, comp, concat, n_extras, tier, big=False):
+    if big:
+        # blocks of >= 4 KiB (content infos of 2500 contents, cluster tails of thousands of blobs, entry store data)
+        scn = L.make_container(rng, 500 + idx, n_entries=2500, n_extras=n_extras, comp=comp, concat=concat, sizes=[0, 1, 3, 7, 20])
+    else:
+        scn = L.make_container(rng, 500 + idx, n_entries=4, n_extras=n_extras, comp=comp, concat=concat)
     d = os.path.join(base, "w%d" % idx)
     shutil.rmtree(d, ignore_errors=True)
     os.makedirs(d)
@@ -231,12 +258,14 @@ def run(prop, tier):
     os.makedirs(base)
     if tier == "quick":
         worlds = [("zstd", "one", 0, 1), ("none", "two", 1, 5)] if prop != "C06" else [("zstd", "one", 0, 1), ("lz4", "one", 0, 5), ("lzma", "two", 1, 5)]
+        worlds.append(("none", "one", 0, "big"))
     else:
         worlds = [(c, m, x, 1) for c in ("none", "lz4", "lzma", "zstd") for m, x in (("one", 0), ("two", 1), ("none", 2))]
+        worlds += [("none", "one", 0, "big"), ("zstd", "two", 1, "big")]
     events, nontrivial, total = [], set(), 0
     case_index = {}
     for wi, (comp, concat, nex, stride) in enumerate(worlds):
-        scn, d = make_world(binaries["debug"], base, rng, wi, comp, concat, nex, tier)
+        scn, d = make_world(binaries["debug"], base, rng, wi, comp, concat, nex, tier, big=(stride == "big"))
         entry = os.path.join(d, scn["out"])
         req = L.dump_request(scn, entry)
         pr = C.run_scenarios(binaries["debug"], [dict(req, id="pristine")], "I_pristine", timeout=120)["pristine"]
@@ -287,7 +316,10 @@ def run(prop, tier):
                     sid = "%s%d_%s_%d" % (profile[0], wi, fn.replace(".", "_"), i)
                     cc = dict(c_, id=sid, profile=profile, world=(comp, concat, fn))
                     case_index[sid] = cc
-                    scns.append(dict(req, id=sid, damage=c_["damage"]))
+                    sc = dict(req, id=sid, damage=c_["damage"])
+                    if prop == "C06" and comp != "none" and any(p[0] == "c.data" for p in c_["parts"]) and (i % 7 == 0 or tier == "thorough"):
+                        sc["threads"] = 4       # several readers waiting on the same failing decoder
+                    scns.append(sc)
                 t1 = time.time()
                 runs = C.run_scenarios(binaries[profile], scns, "I_%s" % prop, timeout=120 + len(scns) // 20, before_round=restore)
                 restore()
